@@ -2,7 +2,10 @@
 //
 // Records (tab separated):
 //   id, "enc", codec, holder, value-as-inserted, ftab, ctab, ptab, observation
-//       codec  = dagjson | dagjson:none | dagjson:rfc | json
+//       codec  = dagjson | dagjson:none | dagjson:rfc | json | opt:l<0|1>b<0|1>:<none|lex|rfc>
+//                (opt: dagjson.EncodeOptions{EncodeLinks, EncodeBytes, MapSortMode}.Encode, decoded back with
+//                 DecodeOptions{ParseLinks, ParseBytes} of the same two switches; its encode errors are classed:
+//                 err:link | err:bytes | err:other)
 //       ftab   = <float bits hex>=<emitted text hex>,...   (emitFloat's text for every float in the value)
 //       ctab   = <binary cid hex>=<Cid.String() hex>,...
 //       ptab   = <string hex>=<binary cid hex | !>,...       (cid.Decode of every string a decoder may meet)
@@ -38,12 +41,47 @@ func encodeWith(codecName string, n datamodel.Node, buf *bytes.Buffer) error {
 	case "json":
 		return cjson.Encode(n, buf)
 	}
+	if l, b, sm, ok := parseOptCodec(codecName); ok {
+		return dagjson.EncodeOptions{EncodeLinks: l, EncodeBytes: b, MapSortMode: sm}.Encode(n, buf)
+	}
 	return fmt.Errorf("unknown codec")
+}
+
+// opt:l<0|1>b<0|1>:<none|lex|rfc>
+func parseOptCodec(name string) (links, bts bool, sm codec.MapSortMode, ok bool) {
+	if !strings.HasPrefix(name, "opt:l") || len(name) < 10 {
+		return
+	}
+	links, bts = name[5] == '1', name[7] == '1'
+	switch name[9:] {
+	case "none":
+		sm = codec.MapSortMode_None
+	case "lex":
+		sm = codec.MapSortMode_Lexical
+	case "rfc":
+		sm = codec.MapSortMode_RFC7049
+	default:
+		return
+	}
+	return links, bts, sm, true
+}
+
+func optCodec(links, bts bool, sort string) string {
+	b := func(x bool) string {
+		if x {
+			return "1"
+		}
+		return "0"
+	}
+	return "opt:l" + b(links) + "b" + b(bts) + ":" + sort
 }
 
 func decodeWith(codecName string, nb datamodel.NodeAssembler, b []byte) error {
 	if codecName == "json" {
 		return cjson.Decode(nb, bytes.NewReader(b))
+	}
+	if l, bt, _, ok := parseOptCodec(codecName); ok {
+		return dagjson.DecodeOptions{ParseLinks: l, ParseBytes: bt}.Decode(nb, bytes.NewReader(b))
 	}
 	return dagjson.Decode(nb, bytes.NewReader(b))
 }
@@ -56,6 +94,15 @@ func observeEnc(codecName string, n datamodel.Node) (string, []byte) {
 	if err != nil {
 		if lib.IsPanic(err) {
 			sb.WriteString("panic|-")
+		} else if _, _, _, opt := parseOptCodec(codecName); opt {
+			switch {
+			case strings.Contains(err.Error(), "cannot marshal IPLD links"):
+				sb.WriteString("err:link|-")
+			case strings.Contains(err.Error(), "cannot marshal IPLD bytes"):
+				sb.WriteString("err:bytes|-")
+			default:
+				sb.WriteString("err:other|-")
+			}
 		} else {
 			sb.WriteString("err|-")
 		}
@@ -239,6 +286,29 @@ func main() {
 	}
 	runEnc(out, next(), "dagjson", "lbmulti1", lib.Bytes("abcdefg"))
 	runEnc(out, next(), "json", "lbshort1", lib.List(lib.Bytes("abc")))
+	// ---- corpus: the encoder's two switches varied independently: EncodeLinks x EncodeBytes x MapSortMode on values
+	//      with links, with bytes, with both (in both emission orders) and with neither
+	{
+		lk, bt := lib.Link(rng.GenCid()), lib.Bytes("abc")
+		e := func(k string, v *lib.Val) lib.Entry { return lib.Entry{K: k, V: v} }
+		vals := []*lib.Val{lk, bt, lib.Int(1), lib.Str("s"),
+			lib.List(lk), lib.List(bt), lib.List(lk, bt), lib.List(bt, lk), lib.List(lib.Int(1), lib.Str("x")),
+			lib.Map(e("a", lk), e("b", bt)), lib.Map(e("b", lk), e("a", bt)), lib.Map(e("bb", lk), e("c", bt)), lib.Map(e("c", lk), e("bb", bt)),
+			lib.Map(e("k", lib.List(lib.Null(), lk))), lib.Map(e("k", lib.Map(e("/", bt)))), lib.Map(e("x", lib.Int(1)), e("y", lib.List())),
+			lib.Map(e("/", lib.Str("x")), e("l", lk)), lib.Map(e("f", lib.FloatBits(0x7ff8000000000001)), e("g", lk), e("h", bt))}
+		for _, v := range vals {
+			base := next()
+			i := 0
+			for _, l := range []bool{true, false} {
+				for _, b := range []bool{true, false} {
+					for _, sm := range []string{"lex", "none", "rfc"} {
+						i++
+						runEnc(out, fmt.Sprintf("%s.o%d", base, i), optCodec(l, b, sm), "basic", v)
+					}
+				}
+			}
+		}
+	}
 	// ---- corpus: the neighbourhood of the reserved shapes, in several holders and orders
 	for _, v := range lib.JsonReservedNeighbourhood(rng) {
 		base := next()
@@ -335,6 +405,10 @@ func main() {
 			runEnc(out, base+".json", "json", "basic", v)
 		case 3:
 			runEnc(out, base+".jsonp", "json", "basic", rng.GenVal(plain, 0))
+		}
+		// the encoder's switches, independently, on every second generated value (which may hold links, bytes, both, neither)
+		if i%2 == 0 {
+			runEnc(out, base+".opt", optCodec(rng.Bool(), rng.Bool(), []string{"lex", "none", "rfc"}[rng.Intn(3)]), "basic", rng.Permuted(v))
 		}
 		if len(encodings) < 4000 || rng.Intn(4) == 0 {
 			if nd, err := lib.BuildBasic(v); err == nil {
